@@ -55,18 +55,19 @@ pub(super) fn execute_distinct<'a, S: GraphSnapshot + 'a>(
     let input_iter = execute_plan(snapshot, input, params);
     let mut seen = std::collections::HashSet::new();
     PlanIterator::Dynamic(Box::new(input_iter.filter(move |result| {
-        if let Ok(row) = result {
-            let key = row
-                .columns()
-                .iter()
-                .map(|(_, v)| format!("{:?}", v))
-                .collect::<Vec<_>>()
-                .join(",");
-            if seen.insert(key) {
-                return true;
+        match result {
+            Ok(row) => {
+                let key = row
+                    .columns()
+                    .iter()
+                    .map(|(_, v)| format!("{:?}", v))
+                    .collect::<Vec<_>>()
+                    .join(",");
+                seen.insert(key)
             }
+            // An error is never a duplicate: let it through to the caller.
+            Err(_) => true,
         }
-        false
     })))
 }
 
@@ -142,18 +143,19 @@ pub(super) fn execute_union<'a, S: GraphSnapshot + 'a>(
     } else {
         let mut seen = std::collections::HashSet::new();
         PlanIterator::Dynamic(Box::new(chained.filter(move |result| {
-            if let Ok(row) = result {
-                let key = row
-                    .columns()
-                    .iter()
-                    .map(|(_, v)| format!("{:?}", v))
-                    .collect::<Vec<_>>()
-                    .join(",");
-                if seen.insert(key) {
-                    return true;
+            match result {
+                Ok(row) => {
+                    let key = row
+                        .columns()
+                        .iter()
+                        .map(|(_, v)| format!("{:?}", v))
+                        .collect::<Vec<_>>()
+                        .join(",");
+                    seen.insert(key)
                 }
+                // An error is never a duplicate: let it through to the caller.
+                Err(_) => true,
             }
-            false
         })))
     }
 }
